@@ -26,6 +26,11 @@ def run(tier):
   n = 150 if tier == 'quick' else 4000
   cc.replay_behaviours(rep, 'GinCore_Sim_lock', num=n, depth=14, nontrivial=_nontrivial)
   cc.trace_validate(rep, 50 if tier == 'quick' else 600, seed_off=112)
+  cc.apalache_inductive(rep, 'LockInd', [('init_implies_inv', ['--init=Init', '--inv=IndInv', '--length=0']),
+                                          ('inv_is_inductive', ['--init=IndInit', '--inv=IndInv', '--length=1']),
+                                          ('inv_implies_restore', ['--init=IndInit', '--inv=Restore', '--length=1']),
+                                          ('guard_action_invariant', ['--init=IndInit', '--inv=GuardA', '--length=1'])],
+                        'apalache_inductive_lock_machine')
   return rep.finish()
 
 
